@@ -1080,3 +1080,25 @@ def replay_c_carrier(d):
     if outs and outs[0][1] == 0 and int(outs[0][2].strip()) < d["bits"]:
         return True, f"member {d['field']} has {outs[0][2].strip()} bits, the field needs {d['bits']}"
     return False, str(outs)[:200]
+
+
+def replay_c_signal_table(d):
+    """Generated C text: every decode macro's (start, length) inside 8*dlc of its message, pairwise disjoint."""
+    import os
+    import re
+
+    from .native import Scratch, generate_c
+
+    with Scratch() as dd:
+        fcp, names = generate_c(d["schema_text"], dd)
+        src = open(os.path.join(dd, "ecu_can.c")).read()
+    sig = re.findall(r"can_decode_signal_as_\w+\(\(msg\), (\d+), (\d+),", src)
+    dlc = [int(x) for x in re.findall(r"\.dlc = (\d+)\}", src)]
+    rng = sorted((int(a), int(a) + int(b)) for a, b in sig)
+    total = max(e for _, e in rng)
+    if not dlc or any(e > 8 * dlc[0] for _, e in rng) or dlc[0] != (total + 7) // 8:
+        return True, f"signals {rng} with dlc {dlc}"
+    for (a0, a1), (b0, b1) in zip(rng, rng[1:]):
+        if a1 > b0:
+            return True, f"overlapping signals {rng}"
+    return False, "signal table fits"
